@@ -103,7 +103,56 @@ pub fn gen_exh_expr(t: &mut Tape) -> Expr {
     gen_expr(t, &cfg)
 }
 
+/// repetitions whose body spans a fixed number of components made of wildcards only
+/// (`<*/*/:1,>*`, `x/<$/*/:2,>`, `<<*/*/:1,2>>*`, `<*/:3,>*`): unbounded in depth, but exhaustive
+/// only when one iteration is one component
+pub fn gen_stride(t: &mut Tape) -> Expr {
+    let k = 1 + t.weighted(&[35, 45, 20]);
+    let mut body: Expr = Vec::new();
+    for _ in 0..k {
+        match t.weighted(&[60, 20, 12, 8]) {
+            0 => body.push(Tok::Zom { lazy: false }),
+            1 => body.push(Tok::Zom { lazy: true }),
+            2 => {
+                body.push(Tok::One);
+                body.push(Tok::Zom { lazy: false });
+            },
+            _ => body.push(Tok::lit("a")),
+        }
+        body.push(Tok::Sep);
+    }
+    let body = match t.weighted(&[70, 15, 15]) {
+        0 => body,
+        1 => {
+            let lo = 1 + t.below(2);
+            vec![Tok::Rep { body, lo, hi: Some(lo + t.below(2)), spell: 0 }]
+        },
+        _ => vec![Tok::Alt(vec![body.clone(), body])],
+    };
+    let lo = t.below(4);
+    let hi = if t.chance(180) { None } else { Some(lo.max(1) + t.below(3)) };
+    let mut e: Expr = Vec::new();
+    if t.chance(50) {
+        e.push(Tok::lit("x"));
+        e.push(Tok::Sep);
+    }
+    e.push(Tok::Rep { body, lo, hi, spell: if lo == 0 && hi.is_none() && t.chance(128) { 1 } else { 0 } });
+    match t.weighted(&[30, 45, 15, 10]) {
+        0 => {},
+        1 => e.push(Tok::Zom { lazy: false }),
+        2 => e.push(Tok::Zom { lazy: true }),
+        _ => {
+            e.push(Tok::One);
+            e.push(Tok::Zom { lazy: false });
+        },
+    }
+    normalize(&e, true)
+}
+
 pub fn gen_tail_expr(t: &mut Tape) -> Expr {
+    if t.chance(30) {
+        return gen_stride(t);
+    }
     if t.chance(110) {
         return gen_exh_expr(t);
     }
@@ -207,7 +256,7 @@ impl Property for C09 {
         }
     }
     fn required_counters(&self) -> Vec<&'static str> {
-        vec!["verdict_always", "verdict_sometimes", "verdict_never", "always_with_branch_in_tail", "always_any", "always_matched_path"]
+        vec!["verdict_always", "verdict_sometimes", "verdict_never", "always_with_branch_in_tail", "always_any", "always_matched_path", "multi_component_leaf_body"]
     }
     fn decode(&self, t: &mut Tape) -> Case {
         let n = 1 + t.weighted(&[75, 25]);
@@ -280,6 +329,14 @@ impl Property for C09 {
             When::Always => st.count("verdict_always"),
             When::Sometimes => st.count("verdict_sometimes"),
             When::Never => st.count("verdict_never"),
+        }
+        if case.exprs.iter().any(|e| {
+            strip_flags(e).iter().any(|t| match t {
+                Tok::Rep { body, hi, .. } => *hi != Some(1) && body.iter().filter(|x| **x == Tok::Sep).count() >= 2 && !body.iter().any(|x| x.is_branch()),
+                _ => false,
+            })
+        }) {
+            st.count("multi_component_leaf_body");
         }
         if verdict != When::Always {
             return Ok(());
